@@ -403,6 +403,11 @@ def run(tier: str, seed: int) -> Any:
             for o in al:
                 cases.append((kind, [o], depth, al))
             sub = [o for o in al if o[0] != "set" or o[2 if kind == "dict" else 1] in (VALS[1], VALS[2], "meta.k.j", "nested.x", "extra.0", "count")]
+            # depth 4 over at most 16 structure-changing operations (16^4 sequences per kind keep the tier within minutes)
+            if len(sub) > 16:
+                keep = [o for o in sub if o[0] != "set"]
+                sets = [o for o in sub if o[0] == "set"]
+                sub = keep + sets[: max(0, 16 - len(keep))]
             for o in sub:
                 cases.append((kind, [o], 4, sub))
     try:
